@@ -19,6 +19,9 @@ import PfVerif.Driver.InstrSys
 import PfVerif.Driver.HedgerPrice
 import PfVerif.Driver.GradH
 import PfVerif.Driver.FitNum
+import PfVerif.Driver.WWModule
+import PfVerif.Driver.HedgerSession
+import PfVerif.Driver.GridSys
 namespace PfVerif.Driver
 open Lean
 
@@ -64,6 +67,9 @@ def dispatch (op : String) (j : Json) : R Json :=
   | "hedger_price" => opHedgerPrice j
   | "grad_h" => opGradH j
   | "fit_num" => opFitNum j
+  | "ww_module" => opWwModule j
+  | "hedger_session" => opHedgerSession j
+  | "grid_sys" => opGridSys j
   | _ => .error s!"unknown op {op}"
 
 end PfVerif.Driver
